@@ -72,7 +72,7 @@ func checkLifecycle(r *ev.Run, id string) {
 			return
 		}
 		rr := rng.New(r.Seed, "lifecycle", si)
-		c := chain.NewChaos(rr, chain.ChaosCfg{Nodes: 8 + si%5, Apps: 4, Accts: 5, Blocks: blocks, Delegators: si%2 == 1})
+		c := chain.NewChaos(rr, chain.ChaosCfg{Nodes: 8 + si%5, Apps: 4, Accts: 5, Blocks: blocks, Delegators: si%2 == 1, SlashPpm: []int64{0, 0, 0, 7}[si%4]})
 		c.Generate()
 		sc := c.B.Script("full")
 		if id == "C25" {
